@@ -9,6 +9,7 @@ import HealSparse.Model.SubMap
 import HealSparse.Props.C04
 import HealSparse.Lemmas.Valid
 import HealSparse.Lemmas.SubMap
+import HealSparse.Lemmas.CacheWorld
 namespace HS
 namespace C02
 
@@ -208,6 +209,73 @@ theorem singleCovpix_spec (c : Cfg) (vc : VCfg V) (s : State V) (k : Nat) (h : I
 /-- non-vacuity: shuffled block order, one valid pixel per block -/
 example : validPixels (V := Nat) ⟨3, 1⟩ ⟨0, fun x => x != 0⟩ ⟨#[4, -2, -2], #[0, 0, 7, 0, 0, 9]⟩
     = some [4, 1] := by decide +kernel
+
+/-! ### the `n_valid` cache at the world level: every protocol history
+
+`cache_coherent` above is the abstract argument (a mutator resets, a query fills).  Here it is
+proved of the executable driver itself: along ANY history (`runLines`, Model/WellFormed.lean) the
+cached count of a stored map is the count of its current storage, for each of the 51 operations
+of Model/Dispatch.lean (Lemmas/CacheWorld.lean: `World.CachePool`, `Good2.step`). -/
+
+/-- the cached `n_valid` of every map that owns its storage is never stale -/
+theorem reachable_cache_fresh (lines : List String) :
+    ∀ e ∈ (runLines lines).pool, e.2.view = none → e.2.CacheFresh :=
+  (Good2.runLines lines).2.1
+
+/-- a view descriptor never holds a count (after the `fix:` commit a view does not cache
+    `n_valid`: its storage changes whenever its parent is written) -/
+theorem reachable_view_cache_empty (lines : List String) :
+    ∀ e ∈ (runLines lines).pool, e.2.view ≠ none → e.2.cache = none :=
+  (Good2.runLines lines).2.2
+
+/-- whatever a history can look up (views included, resolved against their parents) has a
+    fresh cache -/
+theorem reachable_get_cache_fresh (lines : List String) (n : String) (m : MapObj)
+    (h : (runLines lines).get? n = some m) : m.CacheFresh :=
+  (Good2.runLines lines).2.get h
+
+/-- **`n_valid` always answers the number of valid cells**, whatever was queried and mutated
+    before: for any name `n` that resolves to `m` (an owning map or a view), the operation
+    `nvalid n …` answers `toString (nValid m.vc m.st)` — except the one special case of the
+    string path (`path=str`) of a bit-packed map whose count is not cached, which answers
+    `nocount` (the `__str__` of a bit-packed map does not compute it) -/
+theorem reachable_nvalid (lines : List String) (a : Args) (n : String) (rest : List String)
+    (m : MapObj) (ha : a.pos = n :: rest) (h : (runLines lines).get? n = some m) :
+    (stepArgs (runLines lines) "nvalid" a).2 =
+      if (m.cache.isNone && (a.get? "path" == some "str" && m.kind == .packed)) = true then "nocount"
+      else toString (nValid m.vc m.st) := by
+  rw [stepArgs_nvalid]
+  exact nvalid_answer (Good2.runLines lines).2 ha h
+
+/-- … in particular for the plain query (no `path=str`), and for every map that is not bit-packed -/
+theorem reachable_nvalid' (lines : List String) (a : Args) (n : String) (rest : List String)
+    (m : MapObj) (ha : a.pos = n :: rest) (h : (runLines lines).get? n = some m)
+    (hp : a.get? "path" ≠ some "str" ∨ m.kind ≠ .packed) :
+    (stepArgs (runLines lines) "nvalid" a).2 = toString (nValid m.vc m.st) := by
+  rw [reachable_nvalid lines a n rest m ha h, if_neg]
+  intro hc
+  simp only [Bool.and_eq_true, beq_iff_eq] at hc
+  rcases hp with hp | hp
+  · exact hp hc.2.1
+  · exact hp hc.2.2
+
+/-- … and that number is the number of valid pixels of the dense view (`nValid_eq`, with the
+    layout and typing facts of `C04.reachable_get_ok`) -/
+theorem reachable_nvalid_count (lines : List String) (a : Args) (n : String) (rest : List String)
+    (m : MapObj) (ha : a.pos = n :: rest) (h : (runLines lines).get? n = some m)
+    (hp : a.get? "path" ≠ some "str" ∨ m.kind ≠ .packed) :
+    (stepArgs (runLines lines) "nvalid" a).2 = toString (validSet m.c m.vc m.st).length := by
+  obtain ⟨hwf, hk, _⟩ := C04.reachable_get_ok lines n m h
+  rw [reachable_nvalid' lines a n rest m ha h hp, nValid_eq m.c m.vc m.st hwf.2 hk.blankInvalid]
+
+/-- non-vacuity: the histories of Lemmas/CacheWorld.lean (an owning map queried, updated and
+    queried again; a view queried around a write of its parent) with their evaluated answers -/
+example : (∀ e ∈ (runLines exCacheOwning).pool, e.2.view = none → e.2.CacheFresh) ∧
+    (∀ m, (runLines exStaleView).get? "v" = some m → m.CacheFresh) :=
+  ⟨reachable_cache_fresh _, fun m h => reachable_get_cache_fresh _ _ m h⟩
+
+#guard answers exCacheOwning == ["ok", "ok", "1", "1", "ok", "3"]
+#guard answers exStaleView == ["ok", "ok", "ok", "1", "ok", "2", "2"]
 
 end C02
 end HS
